@@ -41,7 +41,7 @@ func rulesC03(w *World, r *Report) {
 	w.ruleLiteralTypeNumberedPX(r, "C03.R4 typed headers read the type through the type reader")
 	w.ruleChunkBuffers(r, "C03.R5 chunk length governs the read size")
 	w.ruleLoopExits(r, "C03.R6 variable-length lists end on the terminator", true)
-	w.ruleHolderChange(r, "C03.R6 variable-length lists keep every element")
+	w.ruleHolderChangePX(r, "C03.R6 variable-length lists keep every element")
 	r.note("spec table digest %s", specDigest())
 	include(w, r, "C04")
 	include(w, r, "C05")
